@@ -83,7 +83,13 @@ pub enum LOp {
     SetConfig { v: u32 },
     /// (world G) a second initialisation attempt with configuration `v`: it
     /// must be rejected and must leave the installed logger and the facade alone
-    SecondInit { v: u32 },
+    SecondInit {
+        v: u32,
+        /// the rejected configuration owns an appender whose destructor panics
+        /// (the caller survives it)
+        #[serde(default)]
+        bomb: bool,
+    },
     /// (world G) application code sets the facade's max level directly; the
     /// next reconfiguration must install its own maximum again
     Perturb { level: u8 },
@@ -103,6 +109,10 @@ pub struct Scn {
     /// loading must drop them and every reference to them, nothing else
     #[serde(default)]
     pub broken: Vec<usize>,
+    /// the error handler itself logs a record (target, level) for every error
+    /// of a top-level record; errors of that nested record reach the handler too
+    #[serde(default)]
+    pub handler_logs: Option<(String, u8)>,
     pub sched_seed: u64,
     pub policy: kernel::Policy,
 }
@@ -494,7 +504,33 @@ pub fn new_shared(scn: Scn, sink: Arc<Sink>, global: bool, file_dir: Option<std:
 }
 
 pub fn build_config(spec: &CfgSpec, version: u32, sh: &Arc<LShared>) -> Config {
+    build_config_with(spec, version, sh, None)
+}
+
+/// An appender that receives nothing and whose destructor panics.
+#[derive(Debug)]
+pub struct Bomb;
+
+impl Append for Bomb {
+    fn append(&self, _: &log::Record) -> anyhow::Result<()> {
+        Ok(())
+    }
+    fn flush(&self) {}
+}
+
+impl Drop for Bomb {
+    fn drop(&mut self) {
+        if !std::thread::panicking() {
+            panic!("destructor of a user-supplied appender panics");
+        }
+    }
+}
+
+pub fn build_config_with(spec: &CfgSpec, version: u32, sh: &Arc<LShared>, extra: Option<Box<dyn Append>>) -> Config {
     let mut b = Config::builder();
+    if let Some(x) = extra {
+        b = b.appender(Appender::builder().build("extra", x));
+    }
     for (i, a) in spec.appenders.iter().enumerate() {
         let mut ab = Appender::builder();
         for (fi, f) in a.filters.iter().enumerate() {
@@ -737,7 +773,8 @@ pub fn generate(rng: &mut Rng, tier: Tier, prop: &str) -> Scn {
             ]);
         }
     }
-    Scn { configs, threads, prop: prop.to_string(), file_v0: false, broken: vec![], sched_seed: rng.next_u64(), policy: common::gen_policy(rng) }
+    let handler_logs = if prop == "C03" && rng.chance(1, 4) { Some((rng.pick(&TARGETS).to_string(), rng.range(1, 5) as u8)) } else { None };
+    Scn { configs, threads, prop: prop.to_string(), file_v0: false, broken: vec![], handler_logs, sched_seed: rng.next_u64(), policy: common::gen_policy(rng) }
 }
 
 /// C03 through a configuration file: same space, version 0 rendered as YAML,
@@ -891,7 +928,24 @@ pub fn execute(scn: &Scn, opts: &ExecOpts) -> Outcome {
         config0,
         Box::new(move |e: &anyhow::Error| {
             kernel::point("err.handler");
-            sh_err.errors.lock().unwrap().push(e.to_string());
+            let text = e.to_string();
+            sh_err.errors.lock().unwrap().push(text.clone());
+            // a handler that reports through the logger itself: only for errors of top-level records
+            if let Some((target, lvl)) = &sh_err.scn.handler_logs {
+                let outer = text.rsplit(':').next().and_then(|s| {
+                    let mut it = s.split('.');
+                    Some(RecId { tid: it.next()?.parse().ok()?, n: it.next()?.parse().ok()? })
+                });
+                if let Some(outer) = outer.filter(|o| o.tid < 500) {
+                    let nested = {
+                        let mut q = sh_err.nested_seq.lock().unwrap();
+                        *q += 1;
+                        RecId { tid: outer.tid + 500, n: *q }
+                    };
+                    sh_err.sink.probe("records_logged_by_the_error_handler", 1);
+                    do_log(&sh_err, nested, target, *lvl);
+                }
+            }
         }),
     ));
     let _ = sh.handle.set(logger.verif_handle());
@@ -967,6 +1021,11 @@ pub fn size(s: &Scn) -> usize {
 
 pub fn shrink(s: &Scn) -> Vec<Scn> {
     let mut out = vec![];
+    if s.handler_logs.is_some() {
+        let mut c = s.clone();
+        c.handler_logs = None;
+        out.push(c);
+    }
     if s.threads.len() > 1 {
         for i in 0..s.threads.len() {
             let mut c = s.clone();
